@@ -1023,6 +1023,7 @@ def class_refs(c, tgt, kw, cnames):
 # instances, association instances with their reference values) and derives the expected answers from that book only.
 K_CLS = 'known:class-level-associators-decided-per-property-not-per-end-pair'
 K_MOFNS = 'known:mof-redefinition-of-class-lands-in-default-namespace'
+K_MOFCACHE = 'known:mof-compiler-class-memory-outlives-class-change'
 QUAL_MOF = MOF.strip().split('\n')[0] + '\n' + MOF.strip().split('\n')[1] + '\n'
 WAYS = ('create', 'add', 'mof')
 WHAT_CLS = ('class-level Associators/AssociatorNames takes every reference property of a selected association class '
@@ -1194,6 +1195,8 @@ class Hist:
         self.seq = 0
         self.nround = 0
         self.flts = self.cflts = self.targets = None
+        self.full = False
+        self.mof_seen, self.mof_stale = set(), set()     # classes the MOF compiler has looked at / that changed since
         self.step('qualifier declarations in root/a (mof)', self.conn.compile_mof_string, QUAL_MOF, namespace='root/a')
 
     # -- plumbing
@@ -1207,10 +1210,26 @@ class Hist:
         return r[1]
 
     def bad(self, vid, **d):
-        viol(vid, steps=self.steps[-40:], nsteps=len(self.steps), round=self.nround, **d)
+        viol(vid, history=self.name, steps=self.steps[-40:], nsteps=len(self.steps), round=self.nround, **d)
 
     def npath(self, n):
         return CIMInstanceName(n[1], {'Id': n[2]}, namespace=n[0])
+
+    # The MOF compiler of a connection keeps the classes it has seen and never drops them (K_MOFCACHE, probed on its
+    # own below); the histories write instances through MOF only where that memory is still right.
+    def mof_saw(self, ns, names):
+        self.mof_seen.update((ns, c.lower()) for c in names)
+
+    def changed(self, ns, names):
+        self.mof_stale.update((ns, c.lower()) for c in names if (ns, c.lower()) in self.mof_seen)
+
+    def inst_way(self, ns, cls, via):
+        chain = [c.name for c in self.m[ns].chain(cls)]
+        if via == 'mof' and any((ns, c.lower()) in self.mof_stale for c in chain):
+            return 'create'
+        if via == 'mof':
+            self.mof_saw(ns, chain)
+        return via
 
     def apath(self, rec, ns):
         mc = self.m[ns].cls[rec.cls.lower()]
@@ -1242,6 +1261,7 @@ class Hist:
             self.delete_class(ns, c)
         for q in ('Association', 'Key'):
             self.step('DeleteQualifier %s in %s' % (q, ns), self.conn.DeleteQualifier, q, namespace=ns)
+        self.mof_stale.update(k for k in self.mof_seen if k[0] == ns)
         self.step('remove_namespace %s' % ns, self.conn.remove_namespace, ns)
         del self.m[ns]
 
@@ -1256,6 +1276,8 @@ class Hist:
             self.step(txt, self.conn.add_cimobjects, spec.cimclass(), namespace=ns)
         else:
             self.step(txt, self.conn.compile_mof_string, spec.mof(), namespace=ns)
+            self.mof_saw(ns, [spec.name] + ([spec.parent] if spec.parent else []) + [t for _, t, _ in spec.refs])
+            self.mof_stale.discard((ns, spec.name.lower()))
         mns.cls[spec.name.lower()] = MCls(spec, mns.cls[spec.parent.lower()] if spec.parent else None)
 
     def modify_class(self, ns, spec, via):
@@ -1268,6 +1290,8 @@ class Hist:
         else:
             self.step('compile_mof_string (redefinition) in %s: %s' % (ns, spec.mof()), self.conn.compile_mof_string,
                       spec.mof(), namespace=ns)
+            self.mof_saw(ns, [spec.name])
+        self.changed(ns, [spec.name])
         mns.cls[spec.name.lower()] = MCls(spec, mns.cls[spec.parent.lower()] if spec.parent else None)
 
     def delete_class(self, ns, name):
@@ -1277,6 +1301,7 @@ class Hist:
         for n in gone:      # no dangling ends are left behind (that situation is a known finding of its own)
             self.detach(n)
         self.step('DeleteClass %s in %s' % (name, ns), self.conn.DeleteClass, name, namespace=ns)
+        self.changed(ns, sub)
         for n in gone:
             del mns.nodes[nodekey(n)]
         for aid in [a for a, r in mns.assocs.items() if r.cls.lower() in sub]:
@@ -1287,6 +1312,7 @@ class Hist:
 
     def add_node(self, ns, cls, nid, via='create'):
         n = (ns, cls, nid)
+        via = self.inst_way(ns, cls, via)
         txt = '%s node %s:%s.Id=%s' % ((via,) + n)
         if via == 'create':
             p = self.step(txt, self.conn.CreateInstance, CIMInstance(cls, properties={'Id': nid}), namespace=ns)
@@ -1309,6 +1335,7 @@ class Hist:
         nss = {req} | rec.nss()
         assert [r for r, _ in ends] == [r for r, _ in mc.refs] and all(self.m[ns].exists(cls) for ns in nss)
         assert nss == {req} or (mns.assoc_effective(cls, True) and via != 'add')
+        via = self.inst_way(req, cls, via)
         txt = '%s %s in %s %s' % (via, cls, req, ' '.join('%s=%s:%s.Id=%s' % ((r,) + e) for r, e in ends))
         if via == 'create':
             props = {r: self.npath(e) for r, e in ends}
@@ -1392,22 +1419,23 @@ class Hist:
             if tuple(t) not in seen:
                 seen.add(tuple(t))
                 deep.append(tuple(t))
-        if self.quick:
-            keep = [t for t in singles if (t[0] in focus or t[1] in focus)]
-            rest = [t for t in singles if t not in keep]
-            chosen = keep + self.rnd.sample(rest, min(5, len(rest))) + \
-                self.rnd.sample([t for t in pairs if t[0] in focus or t[1] in focus], 6) + \
-                self.rnd.sample(pairs, 4) + deep[:3]
-        else:
-            chosen = singles + pairs + deep
-        self.flts = [(None,) * 4] + chosen
+        fs = [t for t in singles if t[0] in focus or t[1] in focus]
+        fp = [t for t in pairs if t[0] in focus or t[1] in focus]
         rf = list(itertools.product(ac, ro))
-        self.rflts = rf if not self.quick else \
-            [rf[0]] + [t for t in rf[1:] if t[0] in focus and t[1] is None] + self.rnd.sample(rf[1:], 8)
-        self.targets = list(targets) + [swapcase_first(targets[0]), 'N_Nope']
         cf = singles + pairs + deep
-        self.cflts = [(None,) * 4] + (cf if not self.quick else
-                                      [t for t in singles if t[0] in focus or t[1] in focus][:6] + self.rnd.sample(cf, 8))
+        self.targets = list(targets) + [swapcase_first(targets[0]), 'N_Nope']
+        frf = [t for t in rf[1:] if t[0] in focus and t[1] is None]
+
+        def pick(pop, k):
+            return self.rnd.sample(pop, min(k, len(pop)))
+        # seeded samples, fixed for the history, always with the names whose subtrees change; level 2 = all of it
+        none = [(None,) * 4]
+        self.matrix = {0: (none + pick(fs, 5) + pick(fp, 2) + deep[:1], [rf[0]] + pick(frf, 2) + pick(rf[1:], 1),
+                           none + pick(fs, 2) + pick(cf, 2)),
+                       1: (none + singles + pick(fp, 30) + pick(pairs, 20) + deep[:10], [rf[0]] + frf + pick(rf[1:], 25),
+                           none + pick(fs, 6) + pick(cf, 8)),
+                       2: (none + singles + pairs + deep, rf, none + singles + pick(cf, 40))}
+        self.flts, self.rflts, self.cflts = self.matrix[0 if self.quick else 1]
 
     def sources(self):
         out = []
@@ -1427,11 +1455,15 @@ class Hist:
         if self.quick:
             nodes = [s for s in out if s[0][0] != '~']
             recs = [s for s in out if s[0][0] == '~']
-            out = nodes[:9] + self.rnd.sample(recs, min(2, len(recs)))
+            out = nodes[:6] + nodes[-1:] + self.rnd.sample(recs, min(1, len(recs)))
         return [s[1:] for s in out]
 
     # -- one round: the model against the server
-    def round(self, label):
+    def round(self, label, minor=False):
+        if self.quick and minor:
+            return
+        if not self.quick:
+            self.flts, self.rflts, self.cflts = self.matrix[2 if self.full and not minor else 1]
         self.nround += 1
         self.steps.append('-- round %d (%s)' % (self.nround, label))
         self.check_stores()
@@ -1444,17 +1476,20 @@ class Hist:
             for src in srcs:
                 self.q_refs(src, flt)
         self.symmetry(srcs, obs)
-        for ns in sorted(self.m):
-            for tgt in self.targets:
-                for flt in self.cflts:
+        nss, tgts = sorted(self.m), self.targets
+        if self.quick:      # two namespaces and three target classes per round, rotating
+            nss = [nss[(self.nround + k) % len(nss)] for k in range(min(2, len(nss)))]
+            tgts = [tgts[(self.nround + k) % len(tgts)] for k in (0, 3)]
+        for tgt in tgts:
+            for flt in self.cflts:
+                for ns in nss:
                     self.q_class(ns, tgt, flt)
-        picks = [(srcs[0], self.flts[0])] + [(self.rnd.choice(srcs), self.rnd.choice(self.flts))
-                                             for _ in range(2 if self.quick else 12)]
+        picks = [(self.rnd.choice(srcs), self.rnd.choice(self.flts)) for _ in range(2 if self.quick else 8)]
         for src, flt in picks:
             self.repeat(src, flt)
             self.pulls(src, flt)
-        ns = self.rnd.choice(sorted(self.m))
-        self.repeat_class(ns, self.rnd.choice(self.targets[:-2]))
+        self.repeat_class(self.rnd.choice(nss), self.rnd.choice(self.targets[:-2]))
+        self.check_stores()
 
     def check_stores(self):
         for ns in sorted(self.m):
@@ -1690,7 +1725,6 @@ class Hist:
             if r3[0] != 'ok' or [key(o) for o in sorted(r3[1], key=lambda o: repr(key(o)))] != want:
                 self.bad('history-spoiling-an-answer-changes-the-next-answer', expected=repr(want)[:300],
                          observed=repr(r3)[:300], **d)
-        self.check_stores()
 
     def repeat_class(self, ns, tgt):
         if not self.m[ns].exists(tgt):
@@ -1774,6 +1808,7 @@ def hist_subclass_ways(way, rnd, quick):
     after the filtered queries have been answered, is populated, and disappears again; the same names get another
     place in the tree of a second namespace, and later another place in the first one."""
     h = Hist('history/subclass/' + way, rnd, quick)
+    h.full = way == 'create'
     a, b = 'root/a', 'root/b'
     for s in BASE_SPECS:
         h.add_class(a, s, way)
@@ -1790,11 +1825,11 @@ def hist_subclass_ways(way, rnd, quick):
     h.add_assoc(b, 'A_Bin', [('Ante', bz), ('Dep', bx)])
     h.round('initial')
     h.add_class(a, Spec('A_S', 'A_Bin', assoc=(way != 'add')), way)
-    h.round('empty subclass of an association class added')
+    h.round('empty subclass of an association class added', minor=True)
     h.add_assoc(a, 'A_S', [('Ante', y), ('Dep', x)], way)
     h.round('instance of the new association subclass')
     h.add_class(a, Spec('N_S', 'N_Base'), way)
-    h.round('empty subclass of the result/endpoint class added')
+    h.round('empty subclass of the result/endpoint class added', minor=True)
     s = h.add_node(a, 'N_S', 's', way)
     h.add_assoc(a, 'A_Bin', [('Ante', x), ('Dep', s)], way)
     h.round('instance of the new result subclass associated')
@@ -1803,7 +1838,7 @@ def hist_subclass_ways(way, rnd, quick):
     h.add_class(a, Spec('N_T', 'N_S'), way)
     t = h.add_node(a, 'N_T', 't', way)
     h.add_assoc(a, 'A_S', [('Ante', s), ('Dep', t)])
-    h.round('second level subclass')
+    h.round('second level subclass', minor=True)
     h.add_class(b, Spec('N_S', 'N_Other'), way)
     h.add_class(b, Spec('A_S', 'A_Loose', assoc=True), way)
     bs = h.add_node(b, 'N_S', 's', way)
@@ -1812,11 +1847,11 @@ def hist_subclass_ways(way, rnd, quick):
     h.round('same names elsewhere in the tree of the other namespace')
     h.add_class(a, Spec('A_L', 'A_Loose', assoc=True), way)
     al = h.add_assoc(a, 'A_L', [('Src', x), ('Dst', t)], way)
-    h.round('subclass of the non-key association')
+    h.round('subclass of the non-key association', minor=True)
     h.modify_assoc(al, 'Dst', s)
     h.round('reference value changed')
     h.delete_class(a, 'N_T')
-    h.round('second level subclass deleted')
+    h.round('second level subclass deleted', minor=True)
     h.delete_class(a, 'A_S')
     h.round('association subclass deleted')
     h.delete_class(a, 'N_S')
@@ -1829,7 +1864,7 @@ def hist_subclass_ways(way, rnd, quick):
     h.round('deleted names reused elsewhere in the tree')
     h.delete_class(b, 'A_S')
     h.delete_class(b, 'N_S')
-    h.round('subclasses deleted in the other namespace')
+    h.round('subclasses deleted in the other namespace', minor=True)
 
 
 FLAVOUR1 = (Spec('N_Sub', 'N_Base'), Spec('N_SubSub', 'N_Sub'), Spec('A_BinSub', 'A_Bin', assoc=True),
@@ -1881,7 +1916,7 @@ def hist_namespaces(rnd, quick):
     h.round('three namespaces, two trees')
     h.add_assoc(a, 'A_Bin', [('Ante', ax), ('Dep', cx)])
     cl = h.add_assoc(c, 'A_Loose', [('Src', cx), ('Dst', bx)], 'mof')
-    h.round('associations across namespaces')
+    h.round('associations across namespaces', minor=True)
     h.delete_class(a, 'N_SubSub')
     h.round('leaf deleted in one namespace only')
     h.add_class(b, Spec('N_Leaf', 'N_SubSub'), 'mof')
@@ -1900,7 +1935,7 @@ def hist_namespaces(rnd, quick):
     h.remove_ns(dd)
     h.add_ns(dd, via='add', specs=BASE_SPECS + FLAVOUR2, class_via='create')
     populate2(h, dd, 'mof')
-    h.round('fourth namespace back with the second tree')
+    h.round('fourth namespace back with the second tree', minor=True)
     h.delete_class(a, 'A_Bin')
     h.round('association class with subclasses and instances deleted')
     h.remove_ns(c)
@@ -1936,10 +1971,10 @@ def hist_instances(rnd, quick):
         h.round('reference values changed')
         h.modify_assoc(l1, 'Src', n[2 + k])
         h.modify_assoc(x1, 'Dst', n[k])
-        h.round('reference values changed again (both ends the same object)')
+        h.round('reference values changed again (both ends the same object)', minor=True)
         h.delete_assoc(l1)
         h.delete_assoc(b1)
-        h.round('association instances deleted')
+        h.round('association instances deleted', minor=True)
         h.delete_assoc(x1, via_ns=(b, a)[k % 2])
         h.delete_assoc(l2)
         h.delete_node(n[1])
@@ -1962,7 +1997,7 @@ def hist_modify_class(rnd, quick):
                    h.add_node(a, 'N_Other', 'o2'))
     bx, bo = h.add_node(b, 'N_Base', 'x'), h.add_node(b, 'N_Other', 'o')
     h.add_assoc(a, 'A_Mixed', [('Left', y), ('Right', o)])
-    h.round('before the class exists')
+    h.round('before the class exists', minor=True)
     h.add_class(a, TOP_V1, 'create')
     h.add_class(b, TOP_V2, 'mof')
     h.round('class created, other definition in the other namespace')
@@ -1978,7 +2013,7 @@ def hist_modify_class(rnd, quick):
     h.add_assoc(b, 'A_Top', [('P', bx), ('Q', bo)], 'mof')
     h.round('instances of the modified classes')
     h.modify_assoc(t1, 'R', o2)
-    h.round('non-key reference of the modified class changed')
+    h.round('non-key reference of the modified class changed', minor=True)
     h.delete_assoc(t1)
     h.modify_class(a, TOP_V1, 'mof')
     h.round('redefined through MOF in the default namespace')
@@ -1997,6 +2032,8 @@ def hist_random(i, rnd, quick, nsteps):
     h.set_matrix(['A_Bin', 'A_Loose', 'A_Mixed', 'A_Top'] + apool, ['N_Base', 'N_Other'] + npool, ALL_ROLES,
                  focus=('A_Bin', 'A_Loose', 'A_Mixed', 'N_Base', 'N_Other', 'A_R1', 'N_R1'),
                  targets=('N_Base', 'N_Other', 'N_R1', 'N_R2', 'A_R1'))
+    if not quick:
+        h.matrix[1] = tuple(a + b[1:len(a)] for a, b in zip(h.matrix[0], h.matrix[1]))
     cnt = [0]
 
     def node_classes(ns):
@@ -2087,7 +2124,9 @@ def hist_random(i, rnd, quick, nsteps):
             par = [c for c in assoc_classes(ns) if c != 'A_Top']
             if not free or not par:
                 return False
-            h.add_class(ns, Spec(rnd.choice(free), rnd.choice(par), assoc=rnd.random() < 0.7), rnd.choice(WAYS))
+            par = rnd.choice(par)       # the qualifier can only be restated below a class that carries it itself
+            h.add_class(ns, Spec(rnd.choice(free), par, assoc=h.m[ns].cls[par.lower()].declared and rnd.random() < 0.7),
+                        rnd.choice(WAYS))
         return True
 
     def op_delclass():
@@ -2145,6 +2184,35 @@ def hist_random(i, rnd, quick, nsteps):
         h.round(op.__name__[3:])
 
 
+def probe_mof_class_cache():
+    """compile_mof_string() of an instance must go by the class as it is stored now."""
+    c = FakedWBEMConnection(default_namespace='root/a')
+    steps = ['compile_mof_string: qualifier declarations + ' + BASE_SPECS[0].mof() + ' ' + BASE_SPECS[2].mof(),
+             'DeleteClass A_Bin', 'CreateClass ' + BASE_SPECS[3].mof().replace('A_Loose', 'A_Bin'),
+             'CreateInstance N_Base.Id=x', 'compile_mof_string: instance of A_Bin { Id = "b"; Src = ...x; Dst = ...x; }']
+    R.case(('mof-class-cache',))
+    c.compile_mof_string(QUAL_MOF + BASE_SPECS[0].mof() + BASE_SPECS[2].mof())
+    c.DeleteClass('A_Bin')
+    l = BASE_SPECS[3]
+    c.CreateClass(Spec('A_Bin', assoc=True, idkey=True, refs=l.refs).cimclass())
+    x = c.CreateInstance(CIMInstance('N_Base', properties={'Id': 'x'}))
+    r = call(c.compile_mof_string, 'instance of A_Bin { Id = "b"; Src = "root/a:N_Base.Id=\\"x\\""; '
+                                   'Dst = "root/a:N_Base.Id=\\"x\\""; };')
+    got = call(lambda: srt(kpath(p) for p in c.ReferenceNames(x, Role='src')))
+    exp = ('ok', [('root/a', 'a_bin', (('id', 'b'),))])
+    if r[0] != 'ok' or got != exp:
+        stale = r[0] == 'exc' and r[1] == 'MOFDependencyError' and "its property 'Id'" in r[2]
+        viol(K_MOFCACHE if stale else 'mof-instance-after-class-change-diverges', steps=steps,
+             what='the MOF compiler object of a mock connection remembers every class it has seen (per namespace '
+                  'name) and never forgets it, so after the class was deleted and created again with other properties '
+                  '(or modified through ModifyClass, or its namespace removed and added again) '
+                  'compile_mof_string("instance of ...") still goes by the old definition: with A_Bin{Ante, Dep} '
+                  'compiled, deleted and re-created as A_Bin{Id, Src, Dst}, compiling instance of A_Bin { Id=..; '
+                  'Src=..; Dst=..; } fails with "property \'Id\' is not declared in the class" and the association '
+                  'never reaches the repository',
+             compile_result=repr(r)[:300], expected=repr(exp), observed=repr(got)[:300])
+
+
 def probe_mof_redefinition_namespace():
     """compile_mof_string(namespace=X) of a class that already exists in X must change the class stored in X (seen
     through the class-level traversal of X), and nothing in the default namespace."""
@@ -2179,13 +2247,14 @@ def probe_mof_redefinition_namespace():
 # ---------------------------------------------------------------- main
 def histories(rnd, quick):
     probe_mof_redefinition_namespace()
+    probe_mof_class_cache()
     for way in WAYS:
         run_history(hist_subclass_ways, way, rnd, quick)
     run_history(hist_namespaces, rnd, quick)
     run_history(hist_instances, rnd, quick)
     run_history(hist_modify_class, rnd, quick)
-    for i in range(2 if quick else 12):
-        run_history(hist_random, i, rnd, quick, 10 if quick else 40)
+    for i in range(2 if quick else 8):
+        run_history(hist_random, i, rnd, quick, 8 if quick else 25)
 
 
 def main():
